@@ -190,7 +190,7 @@ func VP_C02_mint_then_verify() {
 }
 
 //vp:property C07 C02
-//vp:bounds two tunnels present two different validly signed gateway tokens one after the other: A's carries host and address claims (2 symbolic bytes each); B's carries symbolic ones or lacks either member (a token of unusual but legal shape); the IdP honours both access tokens
+//vp:bounds two tunnels present two different validly signed gateway tokens one after the other: A's carries host and address claims (2 symbolic bytes each); B's carries symbolic ones or lacks either member (a token of unusual but legal shape); the two tokens embed the same IdP access token (one login, two connection files) or different ones; the IdP honours both access tokens
 //vp:assume as VP_C02_verify; JSON decoding leaves the fields of absent members untouched
 //vp:reach both-accepted
 func VP_C07_cookie_isolation() {
@@ -201,7 +201,12 @@ func VP_C07_cookie_isolation() {
 		vpTokClaimsMade = true
 		vpTokIssuer, vpTokSubject = "rdpgw", "u"+n
 		vpTokExp, vpTokNbf, vpTokIat = nil, nil, nil
-		vpTokCustom = customClaims{RemoteServer: vpStringN("server-"+n, 2), ClientIP: vpStringN("ip-"+n, 2), AccessToken: "at" + n}
+		// the two tokens come from one login (same IdP access token, e.g. two downloads) or from two
+		at := "at" + n
+		if n == "B" && vpBool("both-tokens-from-one-login") {
+			at = "atA"
+		}
+		vpTokCustom = customClaims{RemoteServer: vpStringN("server-"+n, 2), ClientIP: vpStringN("ip-"+n, 2), AccessToken: at}
 		vpTokLacks = [3]bool{lacksServer, lacksIP, false}
 		id := identity.NewUser()
 		tun := &protocol.Tunnel{User: id}
